@@ -256,6 +256,13 @@ def check(ck: Check) -> None:
     ck.run("R03.3", "balances are a replay, cached per id", lambda: r03_3(ck))
     ck.run("R03.4", "sibling agreement of the two updaters", lambda: r03_4(ck))
     ck.run("R03.5", "reporting paths read the per-block views by the head id", lambda: r03_5(ck))
+    from .common import rule_ctor_identity, rule_eq
+    ck.run("R03.6", "map keys: public keys and output references compare by content", lambda: (
+        rule_eq(ck, "R03.6", "skepticoin.signing.SECP256k1PublicKey", ["public_key"], "per-key balances are keyed by public key"),
+        rule_eq(ck, "R03.6", "skepticoin.datatypes.OutputReference", ["hash", "index"], "the unspent map is keyed by output reference")))
+    ck.run("R03.7", "CoinState stores what it is given", lambda: rule_ctor_identity(
+        ck, "R03.7", "skepticoin.coinstate.CoinState",
+        ["block_by_hash", "unspent_transaction_outs_by_hash", "block_by_height_by_hash", "heads", "current_chain_hash"]))
     from .c04 import r04_4
     ck.run("R04.4", "height index extended from the parent's", lambda: r04_4(ck))
     ck.assume("immutables.Map.set / mutate-finish return new maps and leave the receiver unchanged")
